@@ -275,6 +275,19 @@ theorem scan_lists_only_readable_keys (hc : CodecOK crc enc dec) {snap : Option 
     ∀ k ∈ scanKeys (runOps r ops).2, (get (runOps r ops).2 k).isSome = true :=
   scan_readable (good_runOps (reach_good hc h r hr) ops) (classed_runOps (reach_classed hc h r hr) ops)
 
+/-- **`exists`, `scan` and `get` tell the same story, live and after any crash chain**: on the
+    store recovered from any disk state of the crash model and after ANY further operation list,
+    `exists k` is true exactly when `get k` answers, and every key `get` answers is listed by
+    `scan` (with `scan_lists_only_readable_keys`: `scan` = the readable keys = the existing
+    keys). -/
+theorem exists_scan_get_agree (hc : CodecOK crc enc dec) {snap : Option Store} {f : Bytes}
+    {tr : Trace} (h : Reach crc enc dec snap f tr) (r : Store) (hr : recover crc dec snap f = .ok r)
+    (ops : List Op) (k : Bytes) :
+    exists_ (runOps r ops).2 k = (get (runOps r ops).2 k).isSome ∧
+    ((get (runOps r ops).2 k).isSome = true → k ∈ scanKeys (runOps r ops).2) :=
+  ⟨exists_eq_get_isSome (good_runOps (reach_good hc h r hr) ops) k,
+   readable_scanned (good_runOps (reach_good hc h r hr) ops) k⟩
+
 /-- the fresh store: the hypotheses of `scan_lists_only_readable_keys` hold of the empty disk, and
     the statement is not vacuous (a put then lists its key) -/
 example : Reach (fun _ => 0) toyEnc toyDec none [] [] ∧
